@@ -226,11 +226,12 @@ def materialise_sample(name, dst):
     return out
 
 
-def build_qcow2(cluster_bits=9, backing=False):
+def build_qcow2(cluster_bits=9, backing=False, compat=0, autoclear=0):
     cs = 1 << cluster_bits
     l1_off, l2_off, d_off = cs, 2 * cs, 3 * cs
     hdr = struct.pack(">IIQIIQIIQQIIQ", 0x514649FB, 3, 0, 0, cluster_bits, 4 * cs, 0, 1, l1_off, 0, 0, 0, 0)
-    hdr += struct.pack(">QQQII", 0, 0, 0, 4, 112) + b"\0" * 8       # v3 fields, refcount_order, header_length, compression+pad
+    # v3 fields (incompatible, compatible, autoclear feature bits), refcount_order, header_length, compression+pad
+    hdr += struct.pack(">QQQII", 0, compat, autoclear, 4, 112) + b"\0" * 8
     img = bytearray(4 * cs + cs)
     img[:len(hdr)] = hdr
     img[l1_off:l1_off + 8] = struct.pack(">Q", l2_off | (1 << 63))
@@ -306,8 +307,12 @@ FAMILIES = {
              for ct in ("fullDevice", "partitionedDevice", "vmfsRaw", "vmfsRawDeviceMap", "vmfsPassthroughRawDeviceMap",
                         "monolithicFlat", "vmfs", "custom", "streamOptimized")
              for acc in ("RW", "RDONLY")],
-    "hdd": [("plain", "plain.hdd"), ("expanding", "expanding.hdd"), ("split", "split.hdd")],
-    "qcow2": [("synthetic", None), ("synthetic-64k", None), ("synthetic-rwhandle", None)],
+    "hdd": [("plain", "plain.hdd"), ("expanding", "expanding.hdd"), ("split", "split.hdd"),
+            # an image whose writer still has it open (m_DiskInUse set): a reader takes no lock of its own
+            ("expanding-inuse", "expanding.hdd"), ("split-inuse", "split.hdd")],
+    "qcow2": [("synthetic", None), ("synthetic-64k", None), ("synthetic-rwhandle", None),
+              # feature bits a writer would maintain (lazy refcounts; autoclear bits, known and unknown): a reader leaves them
+              ("featbits", None), ("featbits-rwhandle", None)],
     "vdi": [("synthetic", None), ("synthetic-rwhandle", None)],
     "hyperv": [("vmcx", "test.vmcx"), ("vmrs", "test.VMRS"), ("vmcx-rwhandle", "test.vmcx")],
     "vmx": [("encrypted", "encrypted.vmx"), ("plain", None)],
@@ -471,6 +476,12 @@ class AuditSuite(Suite):
         paths = {}
         if sample:
             paths["main"] = materialise_sample(sample, root)
+            if variant.endswith("-inuse"):
+                for f in sorted(os.listdir(paths["main"])):
+                    if f.endswith(".hds"):
+                        with open(os.path.join(paths["main"], f), "r+b") as o:
+                            o.seek(44)                            # pvd_header.m_DiskInUse
+                            o.write(struct.pack("<I", 0x746F6E59))
             if variant == "differencing-path":
                 paths["parent"] = materialise_sample("dynamic.vhdx.gz", root)
             if variant == "differencing-path-parent-present":
@@ -511,7 +522,10 @@ class AuditSuite(Suite):
         if fam == "qcow2":
             paths["main"] = os.path.join(root, "img.qcow2")
             with open(paths["main"], "wb") as o:
-                o.write(build_qcow2(16 if variant.endswith("64k") else 9))
+                if variant.startswith("featbits"):
+                    o.write(build_qcow2(9, compat=1, autoclear=(1 << (case["seed"] % 62 + 2)) | (case["seed"] >> 8 & 3)))
+                else:
+                    o.write(build_qcow2(16 if variant.endswith("64k") else 9))
         if fam == "vdi":
             paths["main"] = os.path.join(root, "img.vdi")
             with open(paths["main"], "wb") as o:
